@@ -268,6 +268,7 @@ def write_evidence(prop, tier, seed, results, proved, bounded, known, violations
                         'bounds': sorted({str(r.get('bound')) for r in bounded if r.get('bound')}),
                         'note': 'class B obligations are bounded stand-ins and are NOT counted in obligations/discharged'},
             'known_findings': [{'obligation': r['id'], 'text': f['text']} for r, f in known],
+            'proved_names': _proved_names(obs, proved),
             'functions_under_contract': funcs,
             'sources': source_hashes(funcs),
             'functions_evaluated_from_ast': evaluated,
@@ -291,6 +292,18 @@ def write_evidence(prop, tier, seed, results, proved, bounded, known, violations
     os.makedirs(os.path.join(VERIF, 'evidence'), exist_ok=True)
     with open(os.path.join(VERIF, 'evidence', prop + '.json'), 'w') as f:
         json.dump(ev, f, indent=1, default=str)
+
+def _proved_names(obs, proved):
+    """the L/I/E obligations (without their case parameters) with the number of discharged instances of each"""
+    out = {}
+    for r in proved:
+        if r['status'] != 'discharged': continue
+        best = ''
+        for ob in obs:
+            if (r['id'] == ob.oid or r['id'].startswith(ob.oid + '/')) and len(ob.oid) > len(best): best = ob.oid
+        k = '%s (%s)' % (best or r['id'], r['cls'])
+        out[k] = out.get(k, 0) + 1
+    return ['%s x%d' % (k, v) for k, v in sorted(out.items())]
 
 def _z3v():
     try:
